@@ -66,6 +66,8 @@ pub struct GMacro {
 #[derive(Clone, Debug)]
 pub struct Case {
     pub macros: Vec<GMacro>,
+    /// UNITS DATABASE MICRONS value, if the library states one
+    pub dbu: Option<u32>,
 }
 
 const LAYERS: [&str; 5] = ["m1", "M1", "via", "boundary", "\u{e9}"];
@@ -121,11 +123,21 @@ impl<'a> Gen<'a> {
             0 => GShape::Rect(self.coord(true), self.coord(true), self.coord(true), self.coord(true)),
             1 => {
                 let n = 3 + self.c.cost(3, "poly-extra-points");
-                GShape::Polygon((0..n).map(|_| (self.coord(true), self.coord(true))).collect())
+                let mut v: Vec<(Dec, Dec)> = (0..n).map(|_| (self.coord(true), self.coord(true))).collect();
+                // an explicitly closed polygon repeats its first point at the end
+                if self.c.cost(2, "polygon-explicitly-closed") == 1 {
+                    v.push(v[0].clone());
+                }
+                GShape::Polygon(v)
             }
             _ => {
-                let n = 2 + self.c.cost(2, "path-extra-points");
-                GShape::Path((0..n).map(|_| (self.coord(true), self.coord(true))).collect())
+                let n = 2 + self.c.cost(3, "path-extra-points");
+                let mut v: Vec<(Dec, Dec)> = (0..n).map(|_| (self.coord(true), self.coord(true))).collect();
+                // a ring path returns to its first point (out-and-back stub for 2 points)
+                if self.c.cost(2, "path-returns-to-start") == 1 {
+                    v.push(v[0].clone());
+                }
+                GShape::Path(v)
             }
         }
     }
@@ -199,6 +211,9 @@ fn lef_layer(l: &GLayer) -> LefLayerGeometries {
 }
 pub fn to_lef(case: &Case) -> LefLibrary {
     let mut lib = LefLibrary::default();
+    if let Some(d) = case.dbu {
+        lib.units = Some(lef21::LefUnits { database_microns: Some(lef21::LefDbuPerMicron(d)), ..Default::default() });
+    }
     for m in &case.macros {
         let mut lm = LefMacro::new(m.name.clone());
         lm.size = Some((m.size.0.lef(), m.size.1.lef()));
@@ -315,7 +330,7 @@ impl CaseDriver for C16 {
     fn describe(&self, tier: Tier) -> Describe {
         Describe {
             rule: format!(
-                "LefLibrary values built directly: 1-2 macros with SIZE, 0-2 pins x 1-2 ports x 1-2 layer geometries, 0-2 obstruction layers (second optionally on the same layer => merged), 1-2 geometries per layer of kind RECT / POLYGON (3-5 points) / PATH (2-3 points, layer WIDTH), layer names from {{m1, M1, via, boundary, e-acute}}; every coordinate site takes one of 13 decimals Decimal::new(mantissa, scale) built from the site counter (so all sites differ: x != y everywhere): scale 0,1,2,4,5,6, negative, trailing zeros, zero spelled 0 and 0.000, and four values (two positive, two negative) that are not a whole number of 1e-4 um. Free: kind of the first shape and second macro; all other choices cost one deviation; all choice sequences with <= {} deviations. A state is one library value; non-trivial = at least one deviation. Oracle: value*10^4 computed on the decimal digits.",
+                "LefLibrary values built directly: 1-2 macros with SIZE, 0-2 pins x 1-2 ports x 1-2 layer geometries, 0-2 obstruction layers (second optionally on the same layer => merged), 1-2 geometries per layer of kind RECT / POLYGON (3-5 points) / PATH (2-3 points, layer WIDTH), layer names from {{m1, M1, via, boundary, e-acute}}; polygons optionally closed explicitly and paths optionally returning to their first point; UNITS DATABASE MICRONS absent / 1000 / 100 / 2000 / 10000 / 20000 (raw units stay 1e-4 um: the import declares Angstrom); every coordinate site takes one of 13 decimals Decimal::new(mantissa, scale) built from the site counter (so all sites differ: x != y everywhere): scale 0,1,2,4,5,6, negative, trailing zeros, zero spelled 0 and 0.000, and four values (two positive, two negative) that are not a whole number of 1e-4 um. Free: kind of the first shape and second macro; all other choices cost one deviation; all choice sequences with <= {} deviations. A state is one library value; non-trivial = at least one deviation. Oracle: value*10^4 computed on the decimal digits.",
                 self.bound(tier)
             ),
             assumptions: vec!["WIDTH is only generated on layers that hold a PATH (an unused non-representable WIDTH is not a coordinate of any shape)".into()],
@@ -329,12 +344,13 @@ impl CaseDriver for C16 {
     fn gen(&self, _tier: Tier, c: &mut Chooser) -> Case {
         let first_kind = c.free(3, "first-shape-kind");
         let two = c.free(2, "second-macro") == 1;
+        let dbu = [None, Some(1000u32), Some(100), Some(2000), Some(10_000), Some(20_000)][c.cost(6, "units-database-microns")];
         let mut g = Gen { c, site: 0 };
         let mut macros = vec![g.makro(0, Some(first_kind))];
         if two {
             macros.push(g.makro(1, None));
         }
-        Case { macros }
+        Case { macros, dbu }
     }
     fn check(&self, case: &Case, key: &str, cx: &mut Cx) {
         let (_, unrep) = class_of(case);
@@ -446,7 +462,7 @@ impl CaseDriver for C16 {
         }
     }
     fn render(&self, case: &Case) -> Value {
-        let mut ms = vec![];
+        let mut ms = vec![json!({"units_database_microns": case.dbu})];
         for m in &case.macros {
             let layer = |l: &GLayer| {
                 json!({"layer": l.layer, "width": l.width.as_ref().map(|w| w.text()), "shapes": l.shapes.iter().map(|s| match s {
